@@ -546,3 +546,53 @@ func resultValue(call *ssa.Call, idx int) ssa.Value {
 	}
 	return nil
 }
+
+// spilledParam: v itself if it is a parameter; the parameter a local Alloc was initialised from if v is such a spill cell
+// (struct-typed parameters whose fields are addressed are copied into a local first).
+func spilledParam(v ssa.Value) ssa.Value {
+	v = peel(v)
+	if _, ok := v.(*ssa.Parameter); ok {
+		return v
+	}
+	if al, ok := v.(*ssa.Alloc); ok {
+		stores, esc := cellStores(al)
+		if !esc && len(stores) == 1 {
+			if p, ok := stores[0].Val.(*ssa.Parameter); ok {
+				return p
+			}
+		}
+	}
+	return v
+}
+
+// retVals returns the values a Return instruction returns, looking through the result cells go/ssa introduces in
+// functions with defers ("*r0 = v; rundefers; t = *r0; return t"): the value is the last store to the cell in the
+// returning block. The recover block's return (which re-reads the cells after a recovered panic) yields the loads themselves.
+func retVals(ret *ssa.Return) []ssa.Value {
+	out := make([]ssa.Value, len(ret.Results))
+	b := ret.Block()
+	for k, rv := range ret.Results {
+		out[k] = rv
+		ld, ok := rv.(*ssa.UnOp)
+		if !ok || ld.Op != token.MUL {
+			continue
+		}
+		cell, ok := ld.X.(*ssa.Alloc)
+		if !ok {
+			continue
+		}
+		for j := len(b.Instrs) - 1; j >= 0; j-- {
+			if st, ok := b.Instrs[j].(*ssa.Store); ok && st.Addr == ssa.Value(cell) {
+				out[k] = st.Val
+				break
+			}
+		}
+	}
+	return out
+}
+
+// isRecoverBlockReturn: the synthetic return of the recover block (runs only after a recovered panic).
+func isRecoverBlockReturn(ret *ssa.Return) bool {
+	fn := ret.Parent()
+	return fn.Recover != nil && ret.Block() == fn.Recover
+}
